@@ -46,4 +46,24 @@ CHECKS = {
             job("keys", "c11", ["TestC11Keys"], 20000, 300000, 1, 4),
         ],
     },
+    "C16": {
+        "level": "exploration",
+        "manifest": {
+            "technique": "property-based testing: rapid-generated strings (random runes/bytes, hostile token soup, deep nesting, grammar sentences with token mutations) for totality+determinism; metamorphic locality check on SQLite-validated CREATE TABLE/INDEX statements (element alone / reordered / neighbours removed must be reported identically); native go fuzzing in the thorough tier",
+            "level_text": "Generated-input search with an invariant oracle (returns, no panic, same result on repeat and after unrelated parses) and a metamorphic oracle (per-element reports equal across contexts), restricted to statements real SQLite accepts (checked in the run). Sampled, not exhaustive.",
+            "level_note": "SQLite 3.40.1 decides which statements are valid; the comparison is between the parser's own outputs, so no reference parser is trusted. A watchdog of 40 s per Parse call stands in for non-termination.",
+        },
+        "rule": ("totality/determinism: inputs drawn from six generators (random runes, random bytes, soup of hostile tokens, nesting up to depth 3000, statements from the "
+                 "CREATE TABLE/INDEX/SELECT grammar, the same with 1-3 token mutations); non-trivial = non-empty input. locality: statement generated as a list of elements; "
+                 "variants = each column alone, each table constraint with plain columns, each indexed column alone, WHERE removed, elements permuted; all validated by real SQLite; "
+                 "non-trivial = >= 3 elements (or >= 2 indexed columns) where an element carrying an attribute is followed by one without. Distinct = fingerprint of the case spec."),
+        "assumptions": ["system libsqlite3 (3.40.1) decides validity of statements"],
+        "min_nontrivial": {"quick": 300, "thorough": 5000},
+        "required_classes": ["total:grammar:accepted", "total:deep", "local:table:compared", "local:index:compared"],
+        "timeout": {"quick": 300, "thorough": 1500},
+        "jobs": [
+            job("total", "c16", ["TestC16Total"], 20000, 400000, 1, 6),
+            job("local", "c16", ["TestC16Local"], 6000, 60000, 2, 10),
+        ],
+    },
 }
